@@ -228,6 +228,28 @@ def audit(P, ta, order, fails, op, ns=None, light=False):
     def bad(clause, text):
         fails.append(("%s.%s" % (op, clause), text))
 
+    # ---- the two summary tables read one after the other, BEFORE anything else asks the distribution for its frequencies (each table is a
+    # cache of its own: both must be of the trees counted NOW)
+    sd = ta.split_distribution
+    if n and not ign_len:
+        try:
+            tabs = [("edge-length", sd.split_edge_length_summaries, sd.split_edge_lengths)]
+            if ages_on:
+                tabs.append(("node-age", sd.split_node_age_summaries, sd.split_node_ages))
+            for what, table, values in tabs:
+                for m, vals in values.items():
+                    vv = [x for x in vals if x is not None]
+                    if not vv:
+                        continue
+                    got = table.get(m)
+                    if got is None or not Q.approx(got.get("mean"), Q.mean(vv)) or got.get("range") is None \
+                            or not Q.approx(got["range"][0], min(vv)) or not Q.approx(got["range"][1], max(vv)):
+                        bad("summary-tables", "%s summary of split %s is %r, the %d values collected have mean %s, range (%s, %s)"
+                            % (what, Q.split_key(Q.decode(m, bits, L, r), r), None if got is None else (got.get("mean"), got.get("range")),
+                               len(vv), float(Q.mean(vv)), min(vv), max(vv)))
+                        raise StopIteration
+        except StopIteration:
+            pass
     # ---- the four parallel lists
     lens = dict(split_bitmasks=len(ta._tree_split_bitmasks), edge_lengths=len(ta._tree_edge_lengths),
                 leafset_bitmasks=len(ta._tree_leafset_bitmasks), weights=len(ta._tree_weights))
